@@ -80,13 +80,13 @@ META.update({
   category="proof",
   text="Proof for all values, symbolic surrounding bits, symbolic truncation point and strict/zero-extended end: reading gamma, delta (all 4 option combinations) and zeta3 with tables returns the same result, value and final position as bit by bit; every decoding-table entry that is present equals the bit-by-bit decoding of its index pattern (symbolic index); "
        "table and non-table writers/length functions agree through the common definition (C04/C06 obligations).",
-  note="The peek contract (n <= guaranteed width) is checked by the model; the real readers' guaranteed width is C02's peek obligation; check_tables' text output is not observed.",
+  note="The peek contract (n <= guaranteed width) is checked by the model; the real readers' guaranteed width and look-ahead contracts (buffered and unbuffered) are obligations of this check too (c05.peek_contract.*, Verus reader units); check_tables' text output is not observed.",
   design="4/C05"),
  "C06": dict(
   technique="client obligations (len_* vs spec length vs value returned by write vs bits appended vs bits consumed), Kani/CBMC",
   category="proof",
   text="Proof over the full 64-bit domain and symbolic parameters: every len_* function (with and without length tables) equals the defined codeword length (u128 arithmetic), equals the value returned by the write and the number of bits appended (where the codeword fits the model), and equals the bits the read consumes (round-trip obligations).",
-  note="Dispatch-object lengths are part of C10. Unary/Rice/Golomb writes bounded by the 256-bit model; their len functions are proved for every value.",
+  note="Length objects: FuncCodeLen / Codes::len on every named code for every value (c06.len_objects.*), the bits written / consumed by them on a value grid. Unary/Rice/Golomb writes bounded by the 256-bit model; their len functions are proved for every value (Verus for every parameter / modulus). The stream primitives the codes run on are part of the check as Verus units (callee contracts).",
   design="4/C06"),
  "C08": dict(
   technique="Verus loop invariants on the extracted real text of the default and the optimised copy_to/copy_from; Kani contract harnesses (window-bounded, with counterexamples) for the optimised paths",
@@ -103,7 +103,7 @@ META.update({
   category="proof",
   text="Proof, per code identifier and mechanism, for every 64-bit value with symbolic surrounding bits (thorough tier: one Kani obligation per identifier constant; quick tier: representative identifiers): the bits appended, the value decoded and the length computed through Codes::{read,write,len}, ConstCode, FuncCodeReader/Writer/Len, FactoryFuncCodeReader and CodesStats-wrapper equal those of the direct method with the documented parameter. "
        "A concrete native grid (51 identifiers x 11 values x 5 mechanisms x BE/LE, bounded, not counted as proved) covers every mechanism/identifier pair on every run; unsupported identifiers must be rejected.",
-  note="Dispatch is compared against the direct method on the abstract model (the direct method's own meaning is C03/C04/C06). Enumeration parameters beyond the identifier table are compared on the grid 0..=10 only. Unary/Rice/Golomb values limited to codewords fitting the 256-bit model.",
+  note="Dispatch is compared against the direct method on the abstract model (the direct method's own meaning is C03/C04/C06). The 59 NAMES of code_consts (aliases included) and the 59 named enumeration values are run through every mechanism on a value grid (native, bounded); the thorough tier proves every one of the 51 identifiers for every value through the enumeration, the constants and the function objects. Enumeration parameters beyond the identifier table are compared on the grid 0..=10 only. Unary/Rice/Golomb values limited to codewords fitting the 256-bit model.",
   design="4/C10"),
  "C12": dict(
   technique="contract harnesses on the real io::Write / io::Read impls from an arbitrary invariant state (Kani/CBMC), slice length fixed per obligation",
@@ -138,7 +138,7 @@ META.update({
   category="proof",
   text="Proof for every 64-bit value: the std::io VByte writers produce the bytes of the independent spec (= the bit-stream code's bytes, C04), readers invert them, generic entry points select the variant of their endianness parameter; "
        "completeness: every terminated string of <= 10 symbolic bytes whose value fits 64 bits decodes to a value whose encoding is that string; lengths equal vbyte_bit_len/8 and step at the sums of powers of 128.",
-  note="The io sink/source is a fixed array cursor (ghost); std::io::Error construction paths are stubbed (alloc::fmt::format).",
+  note="The io sink/source is a fixed array cursor (ghost), plus a sink that accepts only 1..=len bytes per call for the big-endian writer (the little-endian writer hands over one byte per call); std::io::Error construction paths are stubbed (alloc::fmt::format). BufBit{Reader,Writer}::{read_bits,write_bits}, which the bit-stream codes run on, are part of the check as Verus units.",
   design="4/C18"),
  "C19": dict(
   technique="the C01-C08 obligations re-discharged under --features checks / no_copy_impls (Kani/CBMC, Verus with the checks-configuration precondition) + must-panic harnesses for dirty arguments (the only failed check is the library's own panic)",
